@@ -20,9 +20,11 @@ def demote(md):
 
 
 def latest_results():
-    path = os.path.join(VERIF, 'selftest', 'RESULTS.md')
     rows = {}
-    if os.path.exists(path):
+    # older runs first (RESULTS.history.md), then the current file: the latest verdict of a patch wins
+    for path in (os.path.join(VERIF, 'selftest', 'RESULTS.history.md'), os.path.join(VERIF, 'selftest', 'RESULTS.md')):
+        if not os.path.exists(path):
+            continue
         for line in open(path):
             m = re.match(r'\|\s*(C\d+)\s*\|\s*(\S+)\s*\|\s*([^|]+?)\s*\|\s*([^|]*?)\s*\|\s*(.*?)\s*\|\s*$', line)
             if m and m.group(2) not in ('patch', '---'):
